@@ -156,13 +156,20 @@ claim('C06', 'other',
       'codecs; (b) z3 proves on the real NetAddr._clump_bundle loop, with SYMBOLIC element sizes and limit (both call '
       'sites), that every clump\'s real size 16 + sum(4 + s_i) stays within the limit whenever each element fits alone '
       'and that elements are carried once and in order (models replayed with real messages of those sizes); (c) the '
-      '/d_recv-or-file decision against the real encoded size across the UDP-limit boundary. Bug hunting only (stated '
-      'as such in the evidence): CrossHair on symbolic str arguments and whole message/bundle templates against an '
-      'independent OSC 1.0 reader -- it refutes (and found three defects) but cannot confirm because utf-8 '
-      'decode of symbolic bytes is realised.',
-      _TB + '; CrossHair 0.0.110; vf/oscref.py is the reference reader.',
-      'CrossHair symbolic execution of the real codecs (confirmations) + SMT validity on the clump loop; symbolic-str '
-      'conditions bug-hunting only', 'DESIGN.md 3/C06')
+      '/d_recv-or-file decision against the real encoded size across the UDP-limit boundary; (d) message and bundle '
+      'framing with SYMBOLIC CONTENT: for 14 (quick) / 22 argument templates over strings, blobs, int32, floats, '
+      'True/False/None/[] coercions, nested message and bundle blobs and array markers, every string / blob length up '
+      'to N is forked and EVERY byte value, int and float is a solver variable; the real _build_msg / _build_bundle run '
+      'on cell-list proxies of str / bytes, and z3 proves per path: a string with a NUL byte is refused and nothing '
+      'else is, length = 0 mod 4, the datagram matches an independent OSC 1.0 layout walk field by field (terminator '
+      'and padding zeros, size prefixes, type tags), the library\'s own decoder returns the coerced arguments, and '
+      'the predicted size is >= the real size. Bug hunting only (stated as such in the evidence): CrossHair on '
+      'symbolic str arguments and whole message templates against the independent reader.',
+      _TB + '; CrossHair 0.0.110; vf/oscref.py is the reference reader; in (d) string bytes are opaque values '
+      '(utf-8 well-formedness not modelled, character count a separate symbolic), N = 3..4 quick / 4..9 thorough.',
+      'CrossHair symbolic execution of the real codecs + symbolic execution of the real builders/decoders/sizers on '
+      'symbolic-content byte ropes with SMT validity per field; SMT validity on the clump loop',
+      'DESIGN.md 3/C06')
 
 claim('C17', 'model_checking',
       'Client-object histories (3 operations outside bind(), 2 inside; 4 / 3 thorough) over Synth / Group / ParGroup '
